@@ -136,6 +136,9 @@ SendTicks(ops, i, c) ==
         ELSE <<>>) \o SendTicks(ops, i + 1, c)
 
 -----------------------------------------------------------------------------
+Mon0 == [nterm |-> 0, lastkind |-> "none", after |-> FALSE, slots |-> {}, bad35 |-> FALSE, asks |-> {}, askdup |-> FALSE,
+         used |-> {}, duplist |-> FALSE, waits |-> {}, dupwait |-> FALSE, tos |-> {}, dupto |-> FALSE,
+         lastend |-> <<>>, early |-> FALSE, baddeliv |-> FALSE]
 (* the run starts at clock value n0 (0 in the model-checking runs; the recorded clock in TraceEngine.tla) *)
 InitAt(n0) ==
   /\ bs = R!EmptyState
@@ -145,9 +148,7 @@ InitAt(n0) ==
   /\ wseq = 1 /\ idlePending = FALSE /\ pend = <<>> /\ tasks = {} /\ pull = [st |-> "none"]
   /\ mailbox = <<>> /\ now = n0 /\ outcome = "none" /\ phase = "drain" /\ next = 0 /\ ncancel = 0
   /\ tickLog = <<>> /\ pubs = <<>>
-  /\ mon = [nterm |-> 0, lastkind |-> "none", after |-> FALSE, slots |-> {}, bad35 |-> FALSE, asks |-> {}, askdup |-> FALSE,
-            used |-> {}, duplist |-> FALSE, waits |-> {}, dupwait |-> FALSE, tos |-> {}, dupto |-> FALSE,
-            lastend |-> <<>>, early |-> FALSE, baddeliv |-> FALSE]
+  /\ mon = Mon0
 Init == InitAt(0)
 
 IsTerminal(p) == p.k \in {"stop", "failed", "cancelled", "timedout"}
@@ -187,6 +188,18 @@ Exec(cmds, i, x) ==
       [] c.c = "halt" -> [x EXCEPT !.outcome = IF c.exc = "cancelled" THEN "cancelled" ELSE "timedout"]
       [] c.c = "engine_error" -> [x EXCEPT !.outcome = "error"]
       [] OTHER -> x)
+
+(* a run resumed from a serialised context (Context.from_dict -> workflow.run(ctx=...)): no start event; the workflow    *)
+(* timeout is armed afresh; rewind_in_progress moves in-progress work back to the queues and its commands start workers *)
+InitResumed(st0, n0, next0) ==
+  /\ now = n0
+  /\ LET rw == R!Rewind(st0, n0)
+         x0 == [buf |-> <<>>, wseq |-> 1, pend |-> <<>>, pubs |-> <<>>, mon |-> Mon0, idlePending |-> FALSE, outcome |-> "none",
+                wake |-> IF TimeoutMs = -1 THEN {} ELSE {[at |-> n0 + TimeoutMs, seq |-> 0, tick |-> [k |-> "timeout"]]}]
+         x == Exec(rw.cmds, 1, x0)
+     IN /\ bs = rw.st /\ buf = x.buf /\ wake = x.wake /\ wseq = x.wseq /\ pend = x.pend /\ pubs = x.pubs /\ mon = x.mon
+        /\ idlePending = x.idlePending /\ outcome = x.outcome
+  /\ tasks = {} /\ pull = [st |-> "none"] /\ mailbox = <<>> /\ phase = "drain" /\ next = next0 /\ ncancel = 0 /\ tickLog = <<>>
 
 (* C02, declaratively: a fresh event (not a retry) is handed exactly once to every step that accepts exactly its    *)
 (* type (only to the addressed one if a target is given), except that a step whose waiter it resolves gets it as   *)
